@@ -7,7 +7,7 @@ import json, os, shutil, glob, sys
 tag=sys.argv[1]; first=sys.argv[2]; after=sys.argv[3] if len(sys.argv)>3 else None
 out='/verif/seeded'; rows=[]
 for n in range(1,7):
-    for d in sorted(glob.glob(f'/tmp/mut{n}/out/C*')):
+    for d in sorted(glob.glob(f'/tmp/mut{n}/{os.environ.get("OUTSUB","out")}/C*')):
         i=os.path.basename(d)
         if not os.path.exists(f'{d}/patch.diff'): continue
         meta=json.load(open(f'{d}/meta.json'))
